@@ -29,8 +29,8 @@ CHECKS = {
 }
 
 CHECKS.update({
- "C01": ("exploration", "proptest over structured call sets x sample maps x containers against a reference model of create",
-         "Generated call sets (phasing, missing, multiallelic, monomorphic, symbolic ALT, extra fields, records without GT, non-diploid genotypes in unselected samples; forced record classes) x maps (1..4 populations, subsets, inline/file/none) x {vcf, bgzf-vcf, bgzf-bcf, raw bcf written by the harness's own encoders}: exact equality of shape and every cell with a reference model written from the statement, and integer printing.",
+ "C01": ("exploration", "proptest over structured call sets x sample maps x containers against a reference model of create; libFuzzer campaign over a byte->call-set decoder with the same model as in-target oracle",
+         "Generated call sets (phasing, missing, multiallelic up to 11 ALT alleles with two-digit indices, monomorphic, symbolic ALT, REF alleles up to 9 000 bases, extra fields, records without GT, non-diploid genotypes in unselected samples; forced record classes) x maps (1..4 populations, subsets, inline/file/none) x {vcf, bgzf-vcf, bgzf-bcf, raw bcf written by the harness's own encoders} x log verbosity: exact equality of shape and every cell with a reference model written from the statement, and integer printing; counts beyond 2^8/2^16/2^20. Second generator: bytes decoded into (call set, map, projection, container), run through the library's reader and site loop, every record's fate and the final spectrum compared with the model -- random bytes in the quick tier, a coverage-guided libFuzzer campaign (1M executions) in the thorough tier.",
          "Trusted: the reference model (naive, on the structured call set), the harness's VCF/BCF/BGZF renderers (cross-checked against noodles/flate2 in selftest).", "DESIGN.md §3 C01"),
  "C02": ("exploration", "proptest with boundary-weighted projection targets against the reference model + independent hypergeometric oracle; large-cohort class; -p vs --project-shape metamorphic",
          "Targets anchored on records' called totals (exactly sufficient / one pair short), 0, full size, random; precision 0..12; cohorts of 150..700 samples; inadmissible targets must fail cleanly.",
@@ -52,7 +52,7 @@ CHECKS.update({
          "Per-record genotype classification is the harness's (C08 covers the VCF/BCF conversion).", "DESIGN.md §3 C11"),
  "C12": ("exploration", "differential across containers x transports x thread counts x BGZF layouts x repetitions (byte-identical stdout)",
          "Same call data rendered four ways with generated BGZF block layouts (incl. 64 KiB payloads, 1-byte blocks, empty blocks, no EOF marker), by path / stdin file / stdin pipe, threads from {1,2,3,4,8,16}, repeated executions: all stdout bytes and exit statuses equal.",
-         "Thread interleavings and hash seeds are sampled by repetition, not controlled.", "DESIGN.md §3 C12"),
+         "Thread interleavings and hash seeds are sampled, not controlled: repetition, CPU pinning of the child to one and to two cores, four environments.", "DESIGN.md §3 C12"),
  "C13": ("exploration", "proptest over all 16 option subsets: combined invocation vs chained single-option invocations (byte identity) + absolute model",
          "Combined `view` equals the documented chain byte for byte and the harness's model within tolerance; single-option semantics of mask and normalize; all 16 subsets must occur or the run is inconclusive.",
          "Trusted: harness models of marginalize/project (validated in C03/C04).", "DESIGN.md §3 C13"),
